@@ -146,6 +146,26 @@ def eig_grad_breaking(cx, method="custom_exacteig", neig=2):
     return "ok"
 
 
+def diag_matrix(cx, mode="uppest", neig=1):
+    """a DIAGONAL matrix with exactly representable entries (the shifted system of the implicit backward is then exactly
+    singular also in floating point): gradient w.r.t. the raw entries through the implicit backward == through exacteig"""
+    n = 3
+    gaps = cx.sym("gaps", (n,), positive=True, lo=0.25, hi=2)
+    e = torch.cumsum(gaps, dim=-1) - 2.0           # ascending by construction, exactly representable on the seeded grid
+    P = cx.const(torch.zeros((n, n), dtype=torch.float64)).requires_grad_()
+    A = torch.diag_embed(e) + (P + P.transpose(-2, -1)) * 0.5
+    S0 = cx.sym("S", (n, n))
+    Ssym = S0 + S0.transpose(-2, -1)
+    w = cx.sym("w", (neig,))
+    out = []
+    for method in ("exacteig", "custom_exacteig"):
+        ev, vec = symeig(LinearOperator.m(A, is_hermitian=True), neig=neig, mode=mode, method=method)
+        loss = (w * ev).sum() + (Ssym * torch.matmul(vec, vec.transpose(-2, -1))).sum()
+        out.append(grads(loss, [P])[0])
+    cx.claim_eq("d/dA: implicit backward == exacteig on a diagonal matrix", out[1], out[0])
+    return "ok"
+
+
 def batch_mixed(cx, method="custom_exacteig"):
     """a batch with one exactly degenerate element and one with distinct eigenvalues (3x3, neig=3), basis-independent loss;
     run on the real code only (the regularised singular solve of the degenerate element is outside the symbolic engine)"""
@@ -275,6 +295,9 @@ def configs(tier):
         # auxiliary, concrete (seeded planted matrices on the real float64 code): the implicit backward solves an exactly
         # singular shifted 3x3 system, which exact arithmetic cannot follow (float LAPACK + projection can)
         add("aux_real_only/eig/%s/A/n3/neig2/degenerate/raw_entries" % method, eig_grad_breaking, method=method,
+            opts={"real_only": True, "validate": 4})
+    for mode in ("uppest", "lowest"):
+        add("aux_real_only/eig/custom_exacteig/A/n3/neig1/%s/diagonal" % mode, diag_matrix, mode=mode,
             opts={"real_only": True, "validate": 4})
     add("svd/exacteig/full", svd_grad, mode="uppest", k=None)
     add("svd/custom_exacteig/k1/lowest", svd_grad, mode="lowest", k=1, method="custom_exacteig")
